@@ -940,3 +940,89 @@ pub fn c14_e2e(bin: &str, seed: u64, sessions: u64) -> E2eResult {
     let a = acc.into_inner().unwrap();
     E2eResult { coverage: json!({"sessions": sessions, "classes": a.classes, "samples": a.samples}), violations: a.viol, evals: a.evals, inconclusive: a.inconclusive }
 }
+
+// ------------------------------------------------------------------ C20 / C04 E2E: heights through the real plugin protocol
+
+/// block_added notifications and getinfo polls reach the real binary through plugin.rs /
+/// rpc.rs; the height the plugin *uses* is read off the maxdelay of a pay request:
+/// maxdelay = expiry - height_used - safety_delta (kept below the policy cap by construction).
+pub fn c20_e2e(bin: &str, seed: u64, sessions: u64, long_sessions: u64) -> E2eResult {
+    let acc = Mutex::new(Acc::new());
+    let next = std::sync::atomic::AtomicU64::new(0);
+    std::thread::scope(|sc| {
+        for _ in 0..crate::checks::threads().min(8) {
+            sc.spawn(|| loop {
+                let i = next.fetch_add(1, std::sync::atomic::Ordering::Relaxed);
+                if i >= sessions + long_sessions {
+                    break;
+                }
+                let long = i >= sessions;
+                let mut rng = Rng::new(mix(seed, 0xC20 + i));
+                let h0 = 1000 + rng.below(100_000) as u32;
+                let (pd, cd) = (1008u32, 34u32);
+                let mut s = match Session::start(bin, &json!({}), false, h0, None) {
+                    Ok((Some(s), _)) => s,
+                    _ => {
+                        acc.lock().unwrap().inconclusive.push("plugin did not start".into());
+                        continue;
+                    }
+                };
+                // a sequence of notifications: rising, repeated, stale, zero
+                let mut told_max = h0;
+                let n = 1 + rng.below(6);
+                let mut seq = vec![];
+                for _ in 0..n {
+                    let h = match rng.below(5) {
+                        0 => told_max.saturating_sub(rng.below(5) as u32),
+                        1 => 0,
+                        2 => told_max,
+                        _ => told_max + 1 + rng.below(6) as u32,
+                    };
+                    seq.push(h);
+                    told_max = told_max.max(h);
+                    s.send_doc(&json!({"jsonrpc": "2.0", "method": "block_added", "params": {"block_added": {"hash": "00", "height": h}}}), 0);
+                }
+                if long {
+                    // notifications lost: the node's height rises silently; one poll interval later
+                    // the plugin must have caught up through getinfo
+                    s.node.height = told_max + 7;
+                    told_max += 7;
+                    s.pump_for(Duration::from_secs(63));
+                } else {
+                    s.pump_for(Duration::from_millis(40));
+                }
+                // probe: funded payment whose expiry leaves less than the policy cap
+                let inv = new_invoice(&mut rng, Some(1_000_000), Hints::None);
+                s.preimages.insert(hex::encode(inv.hash), inv.preimage);
+                let expiry = told_max + pd + 20;
+                let before = s.pays_seen.len();
+                // cltv_expiry_relative is computed by lightningd from its own height
+                s.send_doc(&hook("h", tramp_request(&inv, 1, 1_005_000, 1_005_000, expiry, told_max)), 0);
+                let wres = s.wait_or_ping(|s| s.reply("h").is_some(), Duration::from_secs(10));
+                let mut g = acc.lock().unwrap();
+                if wres == Wait::TooSlow {
+                    g.inconclusive.push("session too slow to judge".into());
+                } else if s.pays_seen.len() > before {
+                    let md = s.pays_seen.last().unwrap()["maxdelay"].as_u64().unwrap_or(u64::MAX);
+                    let want = (expiry - told_max - cd) as u64;
+                    g.e(if long { "R20b-e2e" } else { "R20a-e2e" }, 1);
+                    g.class(format!("{} notifications{}", seq.len(), if long { " + silent rise" } else { "" }));
+                    if md != want {
+                        let used = expiry as i64 - cd as i64 - md as i64;
+                        let sig = if long { "R20b|e2e-not-caught-up-within-one-poll" } else { "R20a|e2e-height-used-not-max-told" };
+                        g.v(sig, format!("start height {h0}, notifications {seq:?}{}: pay.maxdelay {md} means height {used} was used, the maximum told is {told_max}", if long { ", then a silent rise of 7 blocks and 63 s of waiting" } else { "" }));
+                    }
+                    if g.samples.len() < 2 {
+                        g.samples.push(json!({"start_height": h0, "notifications": seq, "maxdelay": md, "expected": want, "long": long}));
+                    }
+                } else {
+                    g.v("R20a|e2e-probe-not-paid", format!("funded probe answered {:?} without a pay", s.reply("h")));
+                }
+                drop(g);
+                s.finish();
+            });
+        }
+    });
+    let a = acc.into_inner().unwrap();
+    E2eResult { coverage: json!({"sessions": sessions, "poll_sessions_63s": long_sessions, "classes": a.classes, "samples": a.samples}), violations: a.viol, evals: a.evals, inconclusive: a.inconclusive }
+}
